@@ -955,7 +955,11 @@ Record InvCore (rss : list rung_system) (md : mode) (bs : list bracket) (P : lis
           slot_index s1 = slot_index s2 -> t1 = t2;
   ic_p4 : forall j b sl lv pos t0, nth_error bs j = Some b -> current_rung_and_level b = Ok (sl, lv) ->
           (pos < first_free_pos b)%nat -> nth_error sl pos = Some (t0, None) ->
-          exists t s, In (t, (j, s)) P /\ slot_index s = pos }.
+          exists t s, In (t, (j, s)) P /\ slot_index s = pos;
+  (* trial ids are earlier values of the Tuner's counter, which starts at 0 *)
+  ic_idge : forall j b t, nth_error bs j = Some b -> In t (cur_ids b) -> (0 <= t)%Z;
+  ic_kge : forall t j, In (t, j) P -> (0 <= t)%Z;
+  ic_nge : (0 <= n)%Z }.
 
 Definition rss_ok (rss : list rung_system) : Prop :=
   rss <> [] /\ forall off, (off < length rss)%nat -> check_rungs (nth off rss []) = true.
@@ -1013,7 +1017,7 @@ Proof.
   assert (Ext : forall j b, nth_error bs j = Some b -> nth_error (bs ++ [nb]) j = Some b).
   { intros j b H. rewrite nth_error_app1; [exact H|eapply nth_error_lt; eauto]. }
   assert (CN : cur_ids nb = []) by apply cur_ids_new.
-  destruct I as [I1 I2 I3 I4 I5 I6 I7 I8]. constructor; auto.
+  destruct I as [I1 I2 I3 I4 I5 I6 I7 I8 I9 I10 I11]. constructor; auto.
   - intros j b H. apply nth_error_snoc in H. destruct H as [[_ H]|[-> ->]]; [auto|].
     apply binv_new. apply CK. apply mod_lt_len. exact NE.
   - intros j b t H. apply nth_error_snoc in H. destruct H as [[_ H]|[-> ->]]; [eauto|].
@@ -1025,6 +1029,8 @@ Proof.
     intros j b' Hj. apply nth_error_snoc in Hj. destruct Hj as [[_ Hj]|[-> ->]]; auto.
   - intros j b sl lv pos t0 H C Hp Hn. apply nth_error_snoc in H. destruct H as [[_ H]|[-> ->]]; [eauto|].
     exfalso. unfold nb, new_bracket in Hp. destruct (nth _ rss []) as [|[? ?] ?]; simpl in Hp; lia.
+  - intros j b t H. apply nth_error_snoc in H. destruct H as [[_ H]|[-> ->]]; [eauto|].
+    rewrite CN. contradiction.
 Qed.
 
 Lemma crl_bump : forall b, current_rung_and_level (bump b) = current_rung_and_level b.
@@ -1107,7 +1113,7 @@ Proof.
     - exists bj'. repeat split; auto. }
   set (s := mkSIR (current_rung b) lv (first_free_pos b) (Some t) None).
   assert (Ni : nth_error (upd bs i (bump b)) i = Some (bump b)) by (apply nth_error_upd_eq; exact Li).
-  destruct I as [I1 I2 I3 I4 I5 I6 I7 I8]. constructor.
+  destruct I as [I1 I2 I3 I4 I5 I6 I7 I8 I9 I10 I11]. constructor.
   - intros j bj' H. destruct (Get _ _ H) as [bj [Hj [_ [_ [_ [_ [[-> [-> ->]]|[_ ->]]]]]]]]; [|auto].
     eapply binv_bump; eauto.
   - intros j bj' x H Hx. destruct (Get _ _ H) as [bj [Hj [_ [CI _]]]]. rewrite CI in Hx.
@@ -1155,6 +1161,10 @@ Proof.
         exists x, sx. split; [apply in_or_app; left; exact Hx|exact Ex].
     + destruct (I8 j bj sl2 lv2 pos t2 Hj C2 Hp Hn) as [x [sx [Hx Ex]]].
       exists x, sx. split; [apply in_or_app; left; exact Hx|exact Ex].
+  - intros j bj' x H Hx. destruct (Get _ _ H) as [bj [Hj [_ [CI _]]]]. rewrite CI in Hx. eapply I9; eauto.
+  - intros x j H. apply in_app_or in H. destruct H as [H|[H|[]]]; [eapply I10; eauto|]. inversion H; subst.
+    destruct Kind as [[_ [-> _]]|[-> _]]; [exact I11|]. eapply I9; [exact Nb|]. eapply in_cur_ids; eauto.
+  - lia.
 Qed.
 
 Lemma remove_key_In : forall t (P : list (Z * job)) x, In x (remove_key t P) <-> In x P /\ fst x <> t.
@@ -1244,7 +1254,7 @@ Proof.
                  forall j bj', nth_error (upd bs bid b') j = Some bj' -> ~ In t2 (cur_ids bj')).
   { intros t2 NEt K2 j bj' Hj Hx. destruct (Get _ _ Hj) as [[-> ->]|[_ Hj']]; [|eapply K2; eauto].
     destruct (CIA _ Hx) as [Hx'|Hx']; [eapply K2; eauto|congruence]. }
-  destruct I as [I1 I2 I3 I4 I5 I6 I7 I8]. constructor.
+  destruct I as [I1 I2 I3 I4 I5 I6 I7 I8 I9 I10 I11]. constructor.
   - intros j bj' H. destruct (Get _ _ H) as [[-> ->]|[_ H']]; auto.
   - intros j bj' x H Hx. destruct (Get _ _ H) as [[-> ->]|[_ H']]; [|eauto].
     destruct (CIA _ Hx) as [Hx' | ->]; eauto.
@@ -1290,6 +1300,10 @@ Proof.
     + destruct (I8 j bj' sl2 lv2 pos t2 H' C2 Hp Hn) as [x [sx [Hx Ex]]].
       exists x, sx. split; [|exact Ex]. apply remove_key_In. split; [exact Hx|]. simpl. intros ->.
       assert (X := nodup_Zkeys_functional _ _ _ _ I4 Hx Hin). inversion X; subst. congruence.
+  - intros j bj' x H Hx. destruct (Get _ _ H) as [[-> ->]|[_ H']]; [|eauto].
+    destruct (CIA _ Hx) as [Hx' | ->]; [eapply I9; eauto|eapply I10; eauto].
+  - intros x j H. apply remove_key_In in H. destruct H as [H _]. eauto.
+  - exact I11.
 Qed.
 
 (* Lemma C': the searcher delivers no config for the slot just handed out (trial id None):
@@ -1340,7 +1354,7 @@ Proof.
                  forall j bj', nth_error (upd bs i b') j = Some bj' -> ~ In t2 (cur_ids bj')).
   { intros t2 K2 j bj' Hj Hx. destruct (Get _ _ Hj) as [[-> ->]|[_ Hj']]; [|eapply K2; eauto].
     eapply K2; [exact Nb|]. apply CIA. exact Hx. }
-  destruct I as [I1 I2 I3 I4 I5 I6 I7 I8]. constructor; auto.
+  destruct I as [I1 I2 I3 I4 I5 I6 I7 I8 I9 I10 I11]. constructor; auto.
   - intros j bj' H. destruct (Get _ _ H) as [[-> ->]|[_ H']]; auto.
   - intros j bj' x H Hx. destruct (Get _ _ H) as [[-> ->]|[_ H']]; [|eauto]. eapply I2; [exact Nb|]. apply CIA. exact Hx.
   - intros j1 j2 b1 b2 x NEq H1 H2 Hx1 Hx2.
@@ -1373,6 +1387,7 @@ Proof.
       unfold sl' in Hn. rewrite nth_error_upd_neq in Hn by congruence.
       apply (I8 i b sl lv pos t2 Nb C); [lia|exact Hn].
     + eapply I8; eauto.
+  - intros j bj' x H Hx. destruct (Get _ _ H) as [[-> ->]|[_ H']]; [|eauto]. eapply I9; [exact Nb|]. apply CIA. exact Hx.
 Qed.
 
 (* ======================================================================== *)
@@ -1836,7 +1851,7 @@ Proof.
   assert (CKsys : check_rungs sys = true) by (apply CKs, mod_lt_len, NE).
   assert (Core0 : InvCore rss md [] [] 0).
   { constructor; try (intros; match goal with H : nth_error [] ?j = Some _ |- _ => destruct j; discriminate end);
-      try (intros; contradiction). constructor. }
+      try (intros; contradiction); try lia. constructor. }
   assert (Core1 := core_new_bracket _ _ _ _ _ (conj NE CKs) Core0). cbn [length app] in Core1.
   unfold set_primary. cbn [m_rs m_mode m_brackets m_offsets m_primary app].
   apply mkInv'; auto.
@@ -3222,3 +3237,209 @@ Proof.
   destruct (pending_slots_have_trials _ _ _ _ CK E _ _ _ _ _ _ Nb C Lp Np) as [t [s [LK [Es [Er [_ Et]]]]]].
   exists t, s. split; [exact LK|]. split; [exact Er|]. split; [rewrite Es; rewrite <- Full; exact Lp|exact Et].
 Qed.
+
+(* ======================================================================== *)
+(* Part 11: the primary-bracket pointer                                       *)
+(* ======================================================================== *)
+
+Lemma complete_no_free_slot : forall b, is_bracket_complete b = true -> has_free_slot b = false.
+Proof. intros b H. unfold has_free_slot, next_free_slot. rewrite H. reflexivity. Qed.
+
+(* Nothing that still needs service lies below the primary pointer: the pointer is a valid bracket id,
+   the primary bracket is not complete, every bracket below it is complete (so it has no free slot, and
+   no pending job refers to it), every pending job belongs to a bracket at or above the pointer — which is
+   what on_result asserts — and next_job scans exactly the brackets from the pointer upwards. *)
+Theorem primary_pointer : forall rss md ops st, check_bracket_rungs rss = true -> run_from rss md ops = Ok st ->
+  let m := s_mgr st in
+  (m_primary m < length (m_brackets m))%nat /\
+  (forall b, nth_error (m_brackets m) (m_primary m) = Some b -> is_bracket_complete b = false) /\
+  (forall j b, (j < m_primary m)%nat -> nth_error (m_brackets m) j = Some b ->
+     is_bracket_complete b = true /\ has_free_slot b = false) /\
+  (forall j b, nth_error (m_brackets m) j = Some b -> is_bracket_complete b = false -> (m_primary m <= j)%nat) /\
+  (forall t bid s, lookup t (s_pending st) = Some (bid, s) ->
+     (m_primary m <= bid < length (m_brackets m))%nat).
+Proof.
+  intros rss md ops st CK E m. destruct (reach_inv _ _ _ _ CK E) as [I _]. unfold m.
+  split; [exact (iv_prim _ _ _ _ I)|]. split; [exact (iv_pc _ _ _ _ I)|].
+  assert (Below : forall j b, (j < m_primary (s_mgr st))%nat -> nth_error (m_brackets (s_mgr st)) j = Some b ->
+            is_bracket_complete b = true) by (intros j b Hj Nj; exact (iv_lt _ _ _ _ I _ _ Nj Hj)).
+  split; [intros j b Hj Nj; split; [eauto|apply complete_no_free_slot; eauto]|].
+  assert (Above : forall j b, nth_error (m_brackets (s_mgr st)) j = Some b -> is_bracket_complete b = false ->
+            (m_primary (s_mgr st) <= j)%nat).
+  { intros j b Nj NC. destruct (Nat.le_gt_cases (m_primary (s_mgr st)) j) as [X|X]; [exact X|].
+    rewrite (Below _ _ X Nj) in NC. discriminate. }
+  split; [exact Above|].
+  intros t bid s LK. apply lookup_In in LK.
+  destruct (ic_p _ _ _ _ _ _ (iv_core _ _ _ _ I) _ _ _ LK) as [[b [sl [lv [t0 [Nb [C _]]]]]] _ _].
+  destruct (crl_inv _ _ _ C) as [_ NC]. split; [eapply Above; eauto|eapply nth_error_lt; eauto].
+Qed.
+
+Theorem dehb_primary_pointer : forall first md nb ops m0 st, dehb_mgr_init first md nb = Ok m0 ->
+  drun_from first md nb ops = Ok st ->
+  let m := d_mgr st in
+  (m_primary m < length (m_brackets m))%nat /\
+  (forall b, nth_error (m_brackets m) (m_primary m) = Some b -> is_bracket_complete b = false) /\
+  (forall j b, (j < m_primary m)%nat -> nth_error (m_brackets m) j = Some b ->
+     is_bracket_complete b = true /\ has_free_slot b = false) /\
+  (forall bid s, In (bid, s) (d_out st) -> (m_primary m <= bid < length (m_brackets m))%nat).
+Proof.
+  intros first md nb ops m0 st H E m. destruct (dreach _ _ _ _ _ _ H E) as [I _]. unfold m.
+  split; [exact (di_prim _ _ _ I)|]. split; [exact (di_pc _ _ _ I)|].
+  split; [intros j b Hj Nj; assert (X := di_lt _ _ _ I _ _ Nj Hj); split; [exact X|apply complete_no_free_slot; exact X]|].
+  intros bid s Hin. assert (O := di_out _ _ _ I). rewrite Forall_forall in O.
+  destruct (O _ Hin) as [b [sl [lv [Nb [C _]]]]]. cbn [fst snd] in *. destruct (crl_inv _ _ _ C) as [_ NC].
+  split; [|eapply nth_error_lt; eauto].
+  destruct (Nat.le_gt_cases (m_primary (d_mgr st)) bid) as [X|X]; [exact X|].
+  rewrite (di_lt _ _ _ I _ _ Nb X) in NC. discriminate.
+Qed.
+
+(* ======================================================================== *)
+(* Part 12: _trial_to_config and the config of a suggestion                   *)
+(* ======================================================================== *)
+
+Lemma lookup_app_new : forall t j (P : list (Z * job)), lookup t P = None -> lookup t (P ++ [(t, j)]) = Some j.
+Proof.
+  induction P as [|[k w] P IH]; intro H; simpl in *; [rewrite Z.eqb_refl; reflexivity|].
+  destruct (Z.eqb k t); [discriminate|]. apply IH. exact H.
+Qed.
+
+Lemma shell_on_result_counter : forall st bid r st', shell_on_result st bid r = Ok st' -> s_ntrials st' = s_ntrials st.
+Proof.
+  intros st bid r st' H. unfold shell_on_result in H. destruct (mgr_on_result _ _ _) as [[m' tnp]|e]; [|discriminate].
+  inversion H. reflexivity.
+Qed.
+
+(* what suggest does to the Tuner's counter and the pending map *)
+Lemma suggest_counter : forall st b st' sg, suggest st b = Ok (st', sg) ->
+  match sg with
+  | SStart t => t = s_ntrials st /\ s_ntrials st' = (t + 1)%Z /\ exists j, lookup t (s_pending st') = Some j
+  | SResume t => s_ntrials st' = s_ntrials st /\ exists j, lookup t (s_pending st') = Some j
+  | SNone => s_ntrials st' = s_ntrials st
+  end.
+Proof.
+  intros st b st' sg H. unfold suggest in H.
+  destruct (next_job (s_mgr st)) as [[m' [bid s]]|e]; [|discriminate].
+  destruct (trial_id s) as [t|].
+  - destruct (lookup t (s_pending st)) eqn:L; simpl in H; [discriminate|]. inversion H; subst. cbn [s_ntrials s_pending].
+    split; [reflexivity|]. eexists. apply lookup_app_new. exact L.
+  - destruct b.
+    + destruct (lookup (s_ntrials st) (s_pending st)) eqn:L; simpl in H; [discriminate|]. inversion H; subst.
+      cbn [s_ntrials s_pending]. split; [reflexivity|]. split; [reflexivity|]. eexists. apply lookup_app_new. exact L.
+    + unfold report_as_failed in H. destruct (shell_on_result _ _ _) as [st2|e] eqn:R; [|discriminate].
+      inversion H; subst. apply shell_on_result_counter in R. exact R.
+Qed.
+
+Lemma step_counter : forall st o st', step st o = Ok st' -> (forall c, o <> OSuggest c) -> s_ntrials st' = s_ntrials st.
+Proof.
+  intros st o st' H NS. destruct o as [c|t below v|t|]; simpl in H.
+  - exfalso. exact (NS c eq_refl).
+  - unfold on_trial_result in H. destruct (lookup t (s_pending st)) as [[bid s]|]; [|inversion H; reflexivity].
+    destruct (negb _); [discriminate|].
+    destruct (Z.leb _ _).
+    + destruct (negb _); [discriminate|].
+      destruct (shell_on_result _ _ _) as [st2|e] eqn:R; [|discriminate]. apply shell_on_result_counter in R.
+      destruct (level_to_prev_level _ _ _); [|discriminate]. inversion H; subst. exact R.
+    + destruct (level_to_prev_level _ _ _); [|discriminate]. inversion H; reflexivity.
+  - unfold on_trial_error, report_as_failed in H. destruct (lookup t (s_pending st)) as [[bid s]|]; [|inversion H; reflexivity].
+    destruct (shell_on_result _ _ _) as [st2|e] eqn:R; [|discriminate]. apply shell_on_result_counter in R.
+    inversion H; subst. exact R.
+  - inversion H; reflexivity.
+Qed.
+
+Definition trial_of (sg : suggestion) : option Z :=
+  match sg with SStart t => Some t | SResume t => Some t | SNone => None end.
+
+Section ConfigProofs.
+  Variable hp : Type.
+  Variable has_attr : bool.
+
+  (* exactly the trials started so far have a stored config *)
+  Definition cfgs_ok (cs : cstate hp) : Prop :=
+    forall t, (0 <= t < s_ntrials (fst cs))%Z -> exists c, clookup hp t (snd cs) = Some c.
+
+  Lemma suggest_cfg_inv : forall rss md cs nc, rss_ok rss -> Inv false rss md (fst cs) -> cfgs_ok cs ->
+    exists cs' out, suggest_cfg hp has_attr cs nc = Ok (cs', out) /\ Inv false rss md (fst cs') /\ cfgs_ok cs'.
+  Proof.
+    intros rss md [st cfgs] nc OK I CO. unfold cfgs_ok in *. cbn [fst snd] in *.
+    destruct (suggest_inv false _ _ _ (is_some nc) OK I) as [st' [sg [bid [s [m' [E [I' _]]]]]]]; [reflexivity|].
+    assert (Cn := suggest_counter _ _ _ _ E).
+    unfold suggest_cfg. cbn [fst snd]. rewrite E. destruct sg as [t|t|].
+    - destruct Cn as [Et [En [[b0 s0] L]]]. rewrite L. destruct nc as [c|].
+      + eexists _, _. split; [reflexivity|]. cbn [fst snd]. split; [exact I'|].
+        intros t' Ht'. cbn [fst snd] in Ht' |- *. rewrite En in Ht'. simpl. destruct (Z.eqb t t') eqn:Q; [eauto|].
+        apply Z.eqb_neq in Q. apply CO. cbn [fst]. lia.
+      + (* a new trial is only started when the searcher delivered a config *)
+        exfalso. unfold suggest in E. simpl in E.
+        destruct (next_job (s_mgr st)) as [[m1 [b1 s1]]|e]; [|discriminate].
+        destruct (trial_id s1); [destruct (is_none _); discriminate|].
+        destruct (report_as_failed _ _ _); discriminate.
+    - destruct Cn as [En [[b0 s0] L]]. rewrite L.
+      assert (Core := iv_core _ _ _ _ I'). apply lookup_In in L.
+      assert (T1 := ic_klt _ _ _ _ _ _ Core _ _ L). assert (T2 := ic_kge _ _ _ _ _ _ Core _ _ L).
+      destruct (CO t) as [c0 Ec]; [cbn [fst]; lia|]. rewrite Ec.
+      eexists _, _. split; [reflexivity|]. cbn [fst snd]. split; [exact I'|].
+      intros t' Ht'. cbn [fst snd] in Ht' |- *. rewrite En in Ht'. apply CO. exact Ht'.
+    - eexists _, _. split; [reflexivity|]. cbn [fst snd]. split; [exact I'|].
+      intros t' Ht'. cbn [fst snd] in Ht' |- *. rewrite Cn in Ht'. apply CO. exact Ht'.
+  Qed.
+
+  Lemma crun_inv : forall rss md ops cs, rss_ok rss -> Inv false rss md (fst cs) -> cfgs_ok cs ->
+    exists cs', crun hp has_attr cs ops = Ok cs' /\ Inv false rss md (fst cs') /\ cfgs_ok cs'.
+  Proof.
+    intros rss md. induction ops as [|o ops IH]; intros cs OK I CO; simpl; [eauto|].
+    assert (Step : exists cs1, cstep hp has_attr cs o = Ok cs1 /\ Inv false rss md (fst cs1) /\ cfgs_ok cs1).
+    { destruct o as [nc|o]; simpl.
+      - destruct (suggest_cfg_inv _ _ _ nc OK I CO) as [cs1 [out [E [I1 C1]]]]. rewrite E. eauto.
+      - destruct o as [c|t below v|t|].
+        + eauto.
+        + destruct (step_inv false _ _ _ (OReport t below v) OK I) as [st1 [E I1]]; [intros X; discriminate|].
+          rewrite E. eexists. split; [reflexivity|]. split; [exact I1|].
+          intros t' Ht'. cbn [fst snd] in *. rewrite (step_counter _ _ _ E) in Ht' by (intros c X; discriminate). apply CO. exact Ht'.
+        + destruct (step_inv false _ _ _ (OError t) OK I) as [st1 [E I1]]; [intros X; discriminate|].
+          rewrite E. eexists. split; [reflexivity|]. split; [exact I1|].
+          intros t' Ht'. cbn [fst snd] in *. rewrite (step_counter _ _ _ E) in Ht' by (intros c X; discriminate). apply CO. exact Ht'.
+        + destruct (step_inv false _ _ _ OCollect OK I) as [st1 [E I1]]; [intros X; discriminate|].
+          rewrite E. eexists. split; [reflexivity|]. split; [exact I1|].
+          intros t' Ht'. cbn [fst snd] in *. rewrite (step_counter _ _ _ E) in Ht' by (intros c X; discriminate). apply CO. exact Ht'. }
+    destruct Step as [cs1 [E [I1 C1]]]. rewrite E. apply IH; assumption.
+  Qed.
+
+  (* no KeyError on _trial_to_config, no other exception: every sequence of requests (with or without a
+     config from the searcher), reports and failures is accepted *)
+  Theorem config_no_error : forall rss md ops, check_bracket_rungs rss = true ->
+    exists cs, crun_from hp has_attr rss md ops = Ok cs /\ cfgs_ok cs.
+  Proof.
+    intros rss md ops CK. unfold crun_from. destruct (init_inv false rss md CK) as [st0 [E I]]. rewrite E.
+    assert (C0 : cfgs_ok (st0, [])).
+    { intros t Ht. cbn [fst] in Ht. unfold shell_init in E. destruct (mgr_init rss md); [|discriminate].
+      inversion E; subst. simpl in Ht. lia. }
+    destruct (crun_inv rss md ops (st0, []) (check_bracket_rungs_ok _ CK) I C0) as [cs [Ec [_ Cc]]]. eauto.
+  Qed.
+
+  (* the config of a suggestion: a new trial is told to run to its slot's level, a resumed trial gets
+     the config stored for it with max_resource_attr set to the level of the slot it is resumed for *)
+  Theorem suggestion_config : forall cs nc cs' sg c,
+    suggest_cfg hp has_attr cs nc = Ok (cs', Some (sg, c)) ->
+    exists t bid s, lookup t (s_pending (fst cs')) = Some (bid, s) /\ trial_of sg = Some t /\
+      (has_attr = true -> snd c = Some (level s)) /\
+      match sg with
+      | SStart _ => exists c0, nc = Some c0 /\ c = set_resource hp has_attr c0 (level s) /\ clookup hp t (snd cs') = Some c
+      | SResume _ => exists c0, clookup hp t (snd cs) = Some c0 /\ c = set_resource hp has_attr c0 (level s) /\
+                      fst c = fst c0 /\ snd cs' = snd cs
+      | SNone => False
+      end.
+  Proof.
+    intros [st cfgs] nc cs' sg c H. unfold suggest_cfg in H. cbn [fst snd] in H.
+    destruct (suggest st (is_some nc)) as [[st' sg']|e]; [|discriminate]. destruct sg' as [t|t|]; [| |discriminate].
+    - destruct (lookup t (s_pending st')) as [[bid s]|] eqn:L; [|discriminate]. destruct nc as [c0|]; [|discriminate].
+      inversion H; subst. exists t, bid, s. cbn [fst snd]. split; [exact L|]. split; [reflexivity|]. split.
+      + intros ->. reflexivity.
+      + exists c0. split; [reflexivity|]. split; [reflexivity|]. simpl. rewrite Z.eqb_refl. reflexivity.
+    - destruct (lookup t (s_pending st')) as [[bid s]|] eqn:L; [|discriminate].
+      destruct (clookup hp t cfgs) as [c0|] eqn:Ec; [|discriminate].
+      inversion H; subst. exists t, bid, s. cbn [fst snd]. split; [exact L|]. split; [reflexivity|]. split.
+      + intros ->. reflexivity.
+      + exists c0. split; [exact Ec|]. split; [reflexivity|]. split; [|reflexivity].
+        unfold set_resource. destruct has_attr; reflexivity.
+  Qed.
+End ConfigProofs.
